@@ -42,7 +42,10 @@ def transforms(tier):
 def states(tier, seed):
     fam = seed % 3
     st, inadm = [], 0
-    for ss, al, be, visc, ground, tr in itertools.product(base_sets(tier), [5.0, -3.0], [0.0, 4.0], [False, True], [False, True], transforms(tier)):
+    # viscous option: off, on with the usual laminar fraction, on fully laminar (k_lam = 1: its own branch of the drag model),
+    # thorough also fully turbulent (k_lam = 0)
+    vmenu = [False, 0.05, 1.0] if tier == "quick" else [False, 0.05, 1.0, 0.0]
+    for ss, al, be, visc, ground, tr in itertools.product(base_sets(tier), [5.0, -3.0], [0.0, 4.0], vmenu, [False, True], transforms(tier)):
         sym = all(s["side"] != "full" for s in ss)
         anysym = any(s["side"] != "full" for s in ss)
         if anysym and be != 0.0:
@@ -54,7 +57,9 @@ def states(tier, seed):
         if tr[0] == "t" and tr[1][1] != 0.0 and (anysym or ground):
             inadm += 1
             continue
-        st.append(dict(surfs=ss, alpha=al, beta=be, visc=visc, ground=ground, tr=list(tr), fam=fam))
+        if visc is not False and visc != 0.05 and (ground or tr[0] not in ("k", "rho", "v")):
+            continue  # the extra laminar fractions are crossed with the scaling transformations only
+        st.append(dict(surfs=ss, alpha=al, beta=be, visc=visc is not False, k_lam=(visc if visc is not False else 0.05), ground=ground, tr=list(tr), fam=fam))
     return st, inadm
 
 
@@ -65,7 +70,7 @@ CG0 = np.array([0.4, 0.0, 0.15])
 def run_model(meshes, syms, s, v=60.0, rho=1.1, re=1.0e6, cg=CG0, h=H0):
     surfs = []
     for k, (m, sy) in enumerate(zip(meshes, syms)):
-        kw = dict(with_viscous=s["visc"], CD0=0.01 if s["visc"] else 0.0, CL0=0.0)
+        kw = dict(with_viscous=s["visc"], CD0=0.01 if s["visc"] else 0.0, CL0=0.0, k_lam=s.get("k_lam", 0.05))
         if s["ground"]:
             kw["groundplane"] = True
         surfs.append(builders.aero_surface("s%d" % k, m, sy, **kw))
@@ -123,10 +128,10 @@ def run_state(s):
         t = val * np.array([np.cos(a), 0.0, np.sin(a)])
         tr = run_model([m + t for m in ms], syms, s, v, rho, re, cg + t, h)
     viol, validated = [], 0
-    wh = dict(transform=kind, ground=s["ground"], visc=s["visc"])
+    wh = dict(transform=kind, ground=s["ground"], visc=s["visc"], k_lam=s.get("k_lam", 0.05))
     if kind == "k":
         wh["k"] = val
-    Fsc = max(max(np.abs(F).max() for F in base["F"]), 1e-300)
+    Fsc = max(max(np.abs(F).max() for F in base["F"]), gen.force_floor(rho, v, ms))
 
     def cmp(name, a_, b_, sc=None):
         nonlocal validated
